@@ -650,6 +650,7 @@ func replayOne(c *vlib.Check, w *world) {
 		c.Internal("replay: %v", err)
 	}
 	var f struct {
+		Key    string `json:"key"`
 		Replay struct {
 			Era, Langs, Prov, Rform, Datums, Table, Extra int
 			Dtagged                                bool
@@ -691,7 +692,12 @@ func replayOne(c *vlib.Check, w *world) {
 	c.Eval(k.String(), "")
 	fmt.Printf("%s %s declared=%s: script-data-hash accepted=%v %v\n", k, r.Variant, r.Declared, accepted, errs)
 	if accepted {
-		c.Violation("replay|"+k.String(), "stored transaction still passes the script-data-hash rule", map[string]any{"tx_cbor": r.TxCbor})
+		rp := map[string]any{}
+		var whole map[string]any
+		if json.Unmarshal(raw, &whole) == nil {
+			rp, _ = whole["replay"].(map[string]any)
+		}
+		c.Violation(f.Key, k.String()+": stored transaction still passes the script-data-hash rule with the stored declared hash", rp)
 	}
 	c.Set("rule", "replay of one stored transaction")
 	c.Finish()
